@@ -112,6 +112,25 @@ func uniObserve(v c16Vec) uniObs16 {
 	if v.Kn > 0 {
 		k = float64(v.Kn) / float64(v.Kd)
 	}
+	// nil operands are legal and are dropped by Union2D; where they stand in the argument list is derived
+	// from the vector (none / leading / after the first / both)
+	if len(ops) >= 2 {
+		h := 0
+		for _, e := range v.Ops {
+			h += e.A*3 + e.B*5 + e.C*7 + e.D
+		}
+		if h < 0 {
+			h = -h
+		}
+		switch h % 4 {
+		case 1:
+			ops = append([]sdf.SDF2{nil}, ops...)
+		case 2:
+			ops = append([]sdf.SDF2{ops[0], nil}, ops[1:]...)
+		case 3:
+			ops = append([]sdf.SDF2{nil, ops[0], nil}, ops[1:]...)
+		}
+	}
 	u := realUnion(ops, k)
 	for y := v.Win[1]; y <= v.Win[3]; y++ {
 		for x := v.Win[0]; x <= v.Win[2]; x++ {
